@@ -8,8 +8,9 @@
 EXTENDS ParserContract, Json, IOUtils, TLC
 
 Rec == ndJsonDeserialize(IOEnv.TRACE)
-VARIABLE l
-tvars == <<cvars, l>>
+VARIABLES l,
+          corr     \* <<corrupted?, line, first column, last column>> of the corrupted token (C08 s.2)
+tvars == <<cvars, l, corr>>
 R == Rec[l]
 IsEv(e) == l <= Len(Rec) /\ R.ev = e /\ l' = l + 1
 
@@ -24,11 +25,12 @@ TBegin ==
   \* renderings of one abstract value (C07) share a group: their reference is the canonical rendering
   /\ Begin(IF R.group # "" THEN <<R.parser, R.lit, R.flag, R.group>> ELSE <<R.parser, R.lit, R.flag, R.input>>, R.input, R.limit, R.faulty, R.lines, R.ref,
            R.parser \in {"aig", "aig_parse"})
+  /\ corr' = <<R.corrupt, R.cline, R.clo, R.chi>>
 
-Skipping == skip /\ l <= Len(Rec) /\ R.ev # "reset" /\ l' = l + 1 /\ UNCHANGED cvars
+Skipping == skip /\ l <= Len(Rec) /\ R.ev # "reset" /\ l' = l + 1 /\ UNCHANGED <<cvars, corr>>
 
 TStep ==
-  /\ ~skip
+  /\ ~skip /\ UNCHANGED corr
   /\ \/ IsEv("prebuf") /\ Prebuf(R.n)
      \/ IsEv("src") /\ Src(R.kind, R.n, R.offered)
      \/ IsEv("adv") /\ Adv(R.n, R.pos)
@@ -41,13 +43,21 @@ TStep ==
              [] R.res \in {"ok", "some"} /\ R.item \notin NonItems -> RetItem(R.fn, R.item, R.item[1] \in RealItemTags)
              [] R.res = "none"           -> RetEnd(R.fn)
              [] R.res = "secend"         -> RetSectionEnd(R.fn)
-             [] R.res = "err"            -> RetErr(R.fn, R.kind, R.linen, R.coln)
+             [] R.res = "err"            -> /\ RetErr(R.fn, R.kind, R.linen, R.coln)
+                                             /\ ((corr[1] /\ R.kind = "syntax") =>
+                                                   (R.linen = corr[2] /\ R.coln >= corr[3] /\ R.coln <= corr[4]))
              [] OTHER                    -> FALSE                   \* "panic": no behaviour of any parser (C05)
      \/ IsEv("pend") /\ End
      \/ IsEv("heap") /\ HeapOk(R.peak, R.delivered, R.chunk, R.panic) /\ UNCHANGED cvars
 
-TInit == l = 1 /\ CInit
-TNext == TBegin \/ Skipping \/ TStep
+\* summary record of a streamed run (no per-event records: the input is tens of megabytes)
+TStream ==
+  /\ IsEv("stream")
+  /\ StreamOk(R.res, R.items, R.expected_items, R.chunk, R.max_item, R.peak, R.max_buf_len, R.max_buf_cap)
+  /\ UNCHANGED <<cvars, corr>>
+
+TInit == l = 1 /\ CInit /\ corr = <<FALSE, 0, 0, 0>>
+TNext == TBegin \/ Skipping \/ TStep \/ TStream
 TSpec == TInit /\ [][TNext]_tvars
 
 Accepted ==
